@@ -1,515 +1,383 @@
 package main
 
 import (
+	"fmt"
 	"go/token"
 	"go/types"
+	"sort"
 	"strings"
 
 	"golang.org/x/tools/go/ssa"
 )
 
 // C09 — coalescing rate limiter.
+//
+// Constructs are resolved by role (c09roles.go); the rules are evaluated on a
+// path-sensitive exploration of Run / Add / Close / the goroutine bodies in
+// which same-package callees are followed (c09flow.go, c09acct.go), so that
+// extracting or inlining helpers, closure<->method, if<->switch, guard
+// inversion, defer<->explicit call, renames and temporaries do not change the
+// verdict.
 
 func init() { register("C09", checkC09) }
 
 func checkC09(c *Ctx) {
-	r, p := c.R, c.P
-	r.Explanation = "Decides structural necessary conditions of C09 on events/ratelimiting/coalescing.go: (L1) pendingEvents/timer/currentDur/backoffFactor only under coalescing.lock (fireEvent/reset run under their callers' write lock); (L2) no wg.Wait while holding a lock that a goroutine counted in the wait group (Run) needs to terminate — the Close/Run deadlock; (L3) signals never exceed Adds: every send on the event channel happens in a goroutine spawned under pendingEvents > 0 with pendingEvents zeroed in the same critical section before the spawn; (L4) every goroutine is tracked (wg.Add before go, Done on exit) and Close reaches wg.Wait on every path; (L6) Add counts the event and hands a token to the run loop under one write-lock section; (L7) the timer-expiry handler fires pending events BEFORE resetting the state, and the first token (no window open) fires immediately and opens a window of initialDelay; the pending cap fires immediately. Shutdown cases in helper goroutines are reported as NOTE only. NOT decided: the window/back-off timeline, 'first Add immediate' and 'no Add lost' over all interleavings."
-	r.Assumptions = append(r.Assumptions, "type-based lock identity", "the event channel is the chan<- struct{} parameter handed to Run and passed down to fireEvent")
-	r.Rule("C09.L1-guard", "window state only under coalescing.lock (W for writes)", 8)
+	r := c.R
+	r.Explanation = "Decides structural necessary conditions of C09 on the limiter type that NewCoalescing builds (events/ratelimiting). Fields and functions are resolved by role (types, exported API, dataflow), not by unexported names; every rule is evaluated on a path-sensitive exploration of Run/Add/Close and the goroutine bodies with all same-package callees followed as if inlined. (L1) pending counter/timer/current window/back-off factor only under the limiter's lock (W for writes); (L2) no wg.Wait while holding a lock that a goroutine counted in the wait group needs to terminate — the Close/Run deadlock; (L3) signals never exceed Adds: a signal (goroutine sending on Run's event channel) is started only for a pending count known positive that is zeroed in the same write-lock section; (L4) every go statement is preceded by wg.Add on every path, every goroutine body reaches wg.Done on every exit, Close reaches wg.Wait on every path; (L6) Add counts the event and starts the token goroutine (blocking send on the token channel) in one write-lock section on every path that is not the closed early-return; (L7) the pending count is never zeroed unless a signal is started for it or it is known zero (no Add lost); at a window expiry the pending events are fired; with no window open the token fires immediately and opens a window of the initial delay; reaching the cap (>=) fires immediately; (L8) timer.Reset only after Stop with the channel drained when Stop reported false; (L9) the back-off factor grows only under a strict current<max test and the current window is clamped to max before it is used or the lock released; (L10) the expiry path restores the idle state; (L11) every signalling goroutine waits on a context derived in Run (not the caller's) and Run cancels it on every return. Shutdown cases in helper goroutines are reported as NOTE only. NOT decided: the window/back-off timeline values, 'first Add immediate' and 'no Add lost' over all interleavings."
+	r.Assumptions = append(r.Assumptions, "type-based lock identity (one limiter instance per receiver)", "the event channel is the channel parameter of the exported Run, followed through calls, closures and go statements", "the pending counter is only ever incremented by one or zeroed (checked), hence never negative")
+	r.Rule("C09.L1-guard", "window state only under the limiter lock (W for writes)", 5)
 	r.Rule("C09.L2-wait-under-lock", "wg.Wait is not called holding a lock a counted goroutine needs", 1)
-	r.Rule("C09.L3-signals-le-adds", "event-channel sends only in a goroutine spawned under pendingEvents>0, zeroed before the spawn", 1)
+	r.Rule("C09.L3-signals-le-adds", "a signal is started only for a positive pending count that is zeroed in the same write-lock section", 1)
 	r.Rule("C09.L4-tracked", "goroutines tracked by wg; Close waits on every path", 3)
-	r.Rule("C09.L6-add", "Add increments pendingEvents and hands a token to the loop in one write-lock section", 1)
+	r.Rule("C09.L6-add", "Add increments the pending count and hands a token to the loop in one write-lock section", 1)
 	r.Rule("C09.L8-timer-rearm", "the window timer is re-armed (Reset) only after Stop, draining its channel when Stop reports it already fired", 1)
-	r.Rule("C09.L9-backoff-bounded", "backoffFactor grows only under currentDur < maxDelay (strict) and currentDur is clamped to maxDelay", 1)
-	r.Rule("C09.L10-reset-idle", "reset() restores the whole idle state: pendingEvents=0, currentDur=initialDelay, backoffFactor=1, hasTimer=false, timer=nil", 1)
-	r.Rule("C09.L11-run-context", "the handlers (and so every signalling goroutine) get the context derived in Run that Close cancels, not the caller's", 2)
-	r.Rule("C09.L7-handlers", "expiry fires before reset; first token fires immediately and opens initialDelay window; cap fires immediately", 3)
+	r.Rule("C09.L9-backoff-bounded", "the back-off factor grows only under current < max (strict) and the current window is clamped to max", 1)
+	r.Rule("C09.L10-reset-idle", "the expiry path restores the whole idle state: current=initial, factor=1, window flag=false, timer=nil (pending count 0 by L7)", 1)
+	r.Rule("C09.L11-run-context", "signalling goroutines wait on the context derived in Run that Close cancels, not the caller's", 2)
+	r.Rule("C09.L7-handlers", "pending count never dropped; expiry fires; first token fires immediately and opens initialDelay window; cap fires immediately", 4)
 
-	pkg := p.ModPath + "/events/ratelimiting"
-	lockID := pkg + ".coalescing.lock"
-	wgID := pkg + ".coalescing.wg"
-	e := c.Locks()
-	fns := []*ssa.Function{}
-	for _, f := range p.FuncsOfPkg("events/ratelimiting") {
-		if strings.Contains(FuncName(p, f), "coalescing.") || strings.Contains(FuncName(p, f), "NewCoalescing") {
-			fns = append(fns, f)
-		}
+	k := c09Resolve(c)
+	p, e := k.p, k.e
+	for _, n := range k.roleNote {
+		r.Note("C09 roles: %s", n)
 	}
+	r.Stats["roles"] = map[string]string{"type": k.tkey, "lock": k.fLock, "wg": k.fWG, "timer": k.fTimer, "windowFlag": k.fFlag, "pending": k.fPend, "current": k.fCur, "backoff": k.fBackoff, "initial": k.fInit, "max": k.fMax, "cap": k.fCap, "token": k.fInput, "shutdown": k.fCloseCh, "closed": k.fClosed}
+
+	// L1
 	var specs []GuardSpec
-	for _, f := range []string{"pendingEvents", "timer", "currentDur", "backoffFactor"} {
-		specs = append(specs, GuardSpec{Field: FieldID{pkg + ".coalescing", f}, Lock: lockID, CallNeedsW: false})
+	guarded := []string{k.fPend, k.fTimer, k.fCur}
+	if k.fBackoff != "" {
+		guarded = append(guarded, k.fBackoff)
 	}
-	CheckGuardedBy(p, e, r, "C09.L1-guard", specs)
-
-	wg := NewWaitGraph(p, e, fns)
+	for _, f := range guarded {
+		specs = append(specs, GuardSpec{Field: FieldID{k.tkey, f}, Lock: k.lockID, CallNeedsW: false})
+	}
+	// L2
+	wg := NewWaitGraph(p, e, k.fns)
 	if wg.CheckLW2(r, "C09.L2-wait-under-lock") == 0 {
-		r.Violation("C09.L2-wait-under-lock", "events/ratelimiting.coalescing.Close wg.Wait", "-", "no wg.Wait found: Close does not wait for the helper goroutines")
+		r.Violation("C09.L2-wait-under-lock", k.fname(k.closeFn)+" wg.Wait", "-", "no wg.Wait found: Close does not wait for the helper goroutines")
 	}
 	wg.CheckLW1(r, "C09.L2-wait-under-lock")
+	k.waitUnderLockTransitive()
 
-	pend := FieldID{pkg + ".coalescing", "pendingEvents"}
-	// L3
-	nSend := 0
-	for _, fn := range fns {
+	// flow A
+	a := &c09Acct{k: k, loads: map[*ssa.UnOp]int{}, find: map[string]*c09Finding{}, seenCase: map[string]bool{}, diag: map[string]string{}, visited: map[ssa.Instruction]bool{}, capCmp: map[string]string{}, lockAt: map[ssa.Instruction]Mode{}}
+	var sites []ssa.Instruction // pending stores, go statements that must be explored
+	for _, fn := range k.fns {
+		if k.ctorOnly[fn] {
+			continue
+		}
 		allInstrs(fn, func(in ssa.Instruction) {
-			var chv ssa.Value
 			switch x := in.(type) {
-			case *ssa.Send:
-				chv = x.Chan
-			case *ssa.Select:
-				for _, st := range x.States {
-					if st.Dir == types.SendOnly {
-						chv = st.Chan
+			case *ssa.UnOp:
+				if x.Op == token.MUL {
+					if f, ok := k.addrField(x.X); ok && f == k.fPend {
+						a.loads[x] = len(a.loads)
 					}
 				}
+			case *ssa.Store:
+				if f, ok := k.addrField(x.Addr); ok && f == k.fPend {
+					sites = append(sites, in)
+				}
+			case *ssa.Go:
+				sites = append(sites, in)
 			}
-			if chv == nil {
-				return
-			}
-			id := chanIdent(chv)
-			if !strings.HasPrefix(id, "param:") {
-				return // inputCh etc.
-			}
-			nSend++
-			construct := FuncName(p, fn) + " sends on event channel"
-			// fn must be a closure started with go; spawn site dominated by pendingEvents > 0; zero store dominates go
-			par := fn.Parent()
-			ok, why := false, "the signal is sent outside a goroutine spawned under pendingEvents > 0: a window expiry with nothing pending (or a burst) produces more signals than Adds"
-			if par != nil {
-				allInstrs(par, func(j ssa.Instruction) {
-					g, isGo := j.(*ssa.Go)
-					if !isGo || staticCallee(g) != fn {
-						return
-					}
-					gt := false
-					for _, dc := range domConds(g.Block()) {
-						if cmp, okc := decodeCond(dc.If.Cond, dc.Branch); okc {
-							if idf, _, isF := fieldOfValue(cmp.X); isF && idf == pend {
-								if k, isK := cmp.Y.(*ssa.Const); isK && k.Value != nil {
-									if (cmp.Op == token.GTR && k.Int64() == 0) || (cmp.Op == token.GEQ && k.Int64() == 1) || (cmp.Op == token.NEQ && k.Int64() == 0) {
-										gt = true
-									}
-								}
-							}
-						}
-					}
-					zeroed := false
-					allInstrs(par, func(z ssa.Instruction) {
-						if st, isSt := z.(*ssa.Store); isSt {
-							if fa, isFA := st.Addr.(*ssa.FieldAddr); isFA && fieldIDOfAddr(fa) == pend {
-								if k, isK := st.Val.(*ssa.Const); isK && k.Value != nil && k.Int64() == 0 && instrDominates(st, g) && e.At(st)[lockID] == ModeW {
-									zeroed = true
-								}
-							}
-						}
-					})
-					if gt && zeroed {
-						ok = true
-					} else if gt {
-						why = "pendingEvents is not zeroed (under the write lock) before the signalling goroutine is spawned: the same Adds are signalled again at the next expiry"
-					}
-				})
-			}
-			r.Check(ok, "C09.L3-signals-le-adds", construct, p.Pos(instrPos(in)), "signal sent only for pending events, which are consumed before the spawn", why)
 		})
 	}
-	if nSend == 0 {
-		r.Violation("C09.L3-signals-le-adds", "events/ratelimiting.coalescing sends on event channel", "-", "no send on the event channel found: Adds are never signalled")
+	if len(a.loads) > 64/bPer {
+		undecided("C09: %d reads of the pending counter, more than the accounting flow tracks", len(a.loads))
 	}
+	a.run(k.run, "run")
+	a.run(k.add, "add")
+	a.run(k.closeFn, "close")
+	seenBody := map[*ssa.Function]bool{}
+	for _, g := range goroutinesOf(k.fns) {
+		if k.ctorOnly[g.Spawner] {
+			continue
+		}
+		if g.Body != nil && k.follow(g.Body) && !seenBody[g.Body] {
+			seenBody[g.Body] = true
+			a.run(g.Body, "go")
+		}
+	}
+	// entry points other than Run/Add/Close (exported methods such as WithTicker)
+	for i := 0; i < k.T.NumMethods(); i++ {
+		m := p.SSA.FuncValue(k.T.Method(i))
+		if m != nil && m != k.run && m != k.add && m != k.closeFn && k.T.Method(i).Exported() {
+			a.run(m, "other")
+		}
+	}
+	k.guardedBy(a, specs, guarded)
+	for _, s := range sites {
+		if !a.visited[s] {
+			r.Undecide("C09: %s in %s is not reached by the exploration of Run/Add/Close", c09DescribeInstr(s), k.fname(s.Parent()))
+		}
+	}
+	for _, f := range a.sortedFindings() {
+		r.Check(!f.bad, f.rule, f.construct, f.pos, f.msg, f.msg)
+	}
+	for _, pr := range a.problems {
+		r.Undecide("C09 exploration: %s", pr)
+	}
+	// Add must count on some path
+	if a.addOKs == 0 {
+		r.Violation("C09.L6-add", k.fname(k.add), p.Pos(k.add.Pos()), "Add no longer counts the event and hands a token to the run loop within one write-lock critical section (an Add can be lost or counted without waking the loop)")
+	} else {
+		r.OK("C09.L6-add", k.fname(k.add), p.Pos(k.add.Pos()), "the pending count is incremented and the input token issued in one write-lock section")
+	}
+	k.tokenSendBlocking()
+	// the three run-loop situations must have been found
+	if !a.seenCase["exp"] {
+		r.Undecide("C09: no run-loop path handling a window expiry (receive from the window timer's channel) was recognised")
+	}
+	if !a.seenCase["first"] {
+		if k.windowTestExists() {
+			r.Undecide("C09: the 'no window open' branch of the input handling was not recognised")
+		} else {
+			r.Violation("C09.L7-handlers", k.fname(k.run)+" first", p.Pos(k.run.Pos()), "the input handling never tests whether a window is open: the first Add after an idle period is no longer signalled immediately with a window of initialDelay opened")
+		}
+	}
+	if !a.seenCase["cap"] {
+		switch {
+		case len(a.capCmp) == 0 && !k.fieldReadInLoop(k.fCap):
+			r.Violation("C09.L7-handlers", k.fname(k.run)+" cap", p.Pos(k.run.Pos()), "the pending-events cap is never consulted by the run loop: reaching the pending-events cap no longer fires immediately")
+		case a.capCmp[">"] != "" || a.capCmp["<"] != "":
+			r.Violation("C09.L7-handlers", k.fname(k.run)+" cap", a.capCmp[">"]+a.capCmp["<"], "the pending count is compared with the cap strictly (>), so reaching the pending-events cap no longer fires immediately (it fires one Add late)")
+		default:
+			r.Undecide("C09: the comparison of the pending count with the cap was not recognised")
+		}
+	}
+	if len(a.find) == 0 {
+		r.Undecide("C09: the accounting flow produced no obligation")
+	}
+	nSig := 0
+	for _, f := range a.find {
+		if f.rule == "C09.L3-signals-le-adds" && strings.HasSuffix(f.construct, "starts a signal") {
+			nSig++
+		}
+	}
+	if nSig == 0 {
+		r.Violation("C09.L3-signals-le-adds", k.tkey+" sends on event channel", "-", "no send on the event channel found on any path of Run: Adds are never signalled")
+	}
+	k.signalOncePerGoroutine()
 
-	// L4
-	CheckTracked(p, r, "C09.L4-tracked", fns, wgID, nil)
+	// L5 (note only)
 	var bodies []*ssa.Function
-	for _, g := range goroutinesOf(fns) {
-		if g.Body != nil {
-			bodies = append(bodies, g.Body)
-		}
+	for b := range seenBody {
+		bodies = append(bodies, b)
 	}
-	CheckShutdownCases(p, e, r, "C09.L5-shutdown", bodies, []string{"field:" + pkg + ".coalescing.closeCh"}, false)
-	closeFn := p.Func("events/ratelimiting", "coalescing.Close")
-	ff := &FlagFlow{Fn: closeFn, Must: true, Transfer: func(in ssa.Instruction, st uint64) uint64 {
-		if ci, ok := in.(ssa.CallInstruction); ok && callIs(ci, "sync", "WaitGroup", "Wait") {
-			return st | 1
-		}
-		if d, ok := in.(*ssa.Defer); ok {
-			if f := staticCallee(d); f != nil {
-				hit := false
-				allInstrs(f, func(j ssa.Instruction) {
-					if cj, ok := j.(ssa.CallInstruction); ok && callIs(cj, "sync", "WaitGroup", "Wait") {
-						hit = true
+	sort.Slice(bodies, func(i, j int) bool { return k.fname(bodies[i]) < k.fname(bodies[j]) })
+	CheckShutdownCases(p, e, r, "C09.L5-shutdown", bodies, []string{"field:" + k.tkey + "." + k.fCloseCh}, false)
+
+	k.timerRearm()
+	k.backoffBounded()
+	k.runContext()
+}
+
+// guardedBy (L1): the shared guarded-by rule, whose lockset engine infers the
+// entry lockset of a function from its static call sites; a function value
+// that is called under the lock by a helper (`c.locked(func(){...})`) is
+// invisible to it. Its violations are therefore re-examined with the lock
+// state of the path exploration (which follows such calls): an access is
+// accepted when it was explored and in every explored context the required
+// lock mode was held.
+func (k *c09) guardedBy(a *c09Acct, specs []GuardSpec, guarded []string) {
+	r, p := k.r, k.p
+	tmp := NewReport("C09", r.Tier)
+	CheckGuardedBy(p, k.e, tmp, "C09.L1-guard", specs)
+	byName := map[string]*ssa.Function{}
+	for _, fn := range k.fns {
+		byName[k.fname(fn)] = fn
+	}
+	for _, o := range tmp.Obs {
+		if o.Status == StViolation {
+			parts := strings.SplitN(o.Construct, " -> ", 2)
+			fn := byName[parts[0]]
+			okAll, n := fn != nil && len(parts) == 2, 0
+			if okAll {
+				for _, acc := range FieldAccesses(fn, func(id FieldID) bool { return id.Type == k.tkey && id.String() == parts[1] }) {
+					if acc.Fresh {
+						continue
 					}
-				})
-				if hit {
-					return st | 1
+					n++
+					need := ModeR
+					if acc.Kind == AccWrite {
+						need = ModeW
+					}
+					got, seen := a.lockAt[acc.Instr]
+					if !seen || got < need {
+						okAll = false
+					}
 				}
 			}
+			if okAll && n > 0 {
+				r.OK(o.Rule, o.Construct, o.Pos, fmt.Sprintf("%d accesses under %s in every explored calling context (calls through function values followed)", n, shortID(k.lockID)))
+				continue
+			}
+			r.Violation(o.Rule, o.Construct, o.Pos, o.Message, o.Witness...)
+			continue
 		}
-		return st
-	}}
-	ff.Run()
-	okW := true
-	ff.AtReturns(func(ret *ssa.Return, st uint64) {
-		if st&1 == 0 {
-			okW = false
+		r.OK(o.Rule, o.Construct, o.Pos, o.Message)
+	}
+	for _, f := range guarded {
+		n := 0
+		for _, o := range r.Obs {
+			if o.Rule == "C09.L1-guard" && strings.HasSuffix(o.Construct, "."+f) {
+				n++
+			}
 		}
-	})
-	r.Check(okW, "C09.L4-tracked", "events/ratelimiting.coalescing.Close waits", p.Pos(closeFn.Pos()), "Close reaches wg.Wait on every path", "Close can return without waiting for the helper goroutines")
+		if n == 0 {
+			r.Undecide("C09.L1-guard found no access to %s.%s outside the constructor", k.tkey, f)
+		}
+	}
+}
 
-	// L6 Add
-	add := p.Func("events/ratelimiting", "coalescing.Add")
-	inc, tok := false, false
-	allInstrs(add, func(in ssa.Instruction) {
-		if st, ok := in.(*ssa.Store); ok && refDelta(st, pend) == 1 && e.At(st)[lockID] == ModeW {
-			inc = true
+func c09DescribeInstr(in ssa.Instruction) string {
+	switch in.(type) {
+	case *ssa.Go:
+		return "a go statement"
+	case *ssa.Store:
+		return "a store to the pending counter"
+	}
+	return in.String()
+}
+
+// windowTestExists: some function reachable from Run tests the window flag or the timer for nil.
+func (k *c09) windowTestExists() bool {
+	hit := false
+	WalkCalls(k.run, nil, nil, k.follow, false, func(pf *PathFlow, in ssa.Instruction) {
+		if v, ok := in.(ssa.Value); ok {
+			if f, ok := k.flagLoad(v); ok && f == k.fFlag && k.fFlag != "" {
+				hit = true
+			}
 		}
-		if g, ok := in.(*ssa.Go); ok && e.At(g)[lockID] == ModeW {
-			if body := staticCallee(g); body != nil {
-				allInstrs(body, func(j ssa.Instruction) {
-					if sel, ok := j.(*ssa.Select); ok {
-						for _, st := range sel.States {
-							if st.Dir == types.SendOnly && chanIdent(st.Chan) == "field:"+pkg+".coalescing.inputCh" {
-								tok = true
-							}
-						}
-					}
-					if s, ok := j.(*ssa.Send); ok && chanIdent(s.Chan) == "field:"+pkg+".coalescing.inputCh" {
-						tok = true
-					}
-				})
+		if bo, ok := in.(*ssa.BinOp); ok && (bo.Op == token.EQL || bo.Op == token.NEQ) {
+			if f, _, ok := k.loadField(bo.X); ok && f == k.fTimer && isNilConst(bo.Y) {
+				hit = true
 			}
 		}
 	})
-	r.Check(inc && tok, "C09.L6-add", "events/ratelimiting.coalescing.Add", p.Pos(add.Pos()), "pendingEvents++ and the input token are issued in one write-lock section", "Add no longer counts the event and hands a token to the run loop within one write-lock critical section (an Add can be lost or counted without waking the loop)")
+	return hit
+}
 
-	// L7 handlers
-	fire := p.Func("events/ratelimiting", "coalescing.fireEvent")
-	reset := p.Func("events/ratelimiting", "coalescing.reset")
-	htf := p.Func("events/ratelimiting", "coalescing.handleTimerFired")
-	var fireCall, resetCall *ssa.Call
-	allInstrs(htf, func(in ssa.Instruction) {
-		if call, ok := in.(*ssa.Call); ok {
-			switch staticCallee(call) {
-			case fire:
-				fireCall = call
-			case reset:
-				resetCall = call
+func (k *c09) fieldReadInLoop(field string) bool {
+	hit := false
+	WalkCalls(k.run, nil, nil, k.follow, false, func(pf *PathFlow, in ssa.Instruction) {
+		if u, ok := in.(*ssa.UnOp); ok && u.Op == token.MUL {
+			if f, ok := k.addrField(u.X); ok && f == field {
+				hit = true
 			}
 		}
 	})
-	okOrder := fireCall != nil && resetCall != nil && instrDominates(fireCall, resetCall)
-	r.Check(okOrder, "C09.L7-handlers", "events/ratelimiting.coalescing.handleTimerFired order", p.Pos(htf.Pos()), "pending events are fired before the window state is reset", "the expiry handler resets the state (zeroing pendingEvents) before firing, or no longer does both: Adds of the closing window are lost")
-	hic := p.Func("events/ratelimiting", "coalescing.handleInputCh")
-	firstFires, firstArms, capFires := false, false, false
-	allInstrs(hic, func(in ssa.Instruction) {
-		call, ok := in.(*ssa.Call)
+	return hit
+}
+
+// tokenSendBlocking: the token is handed over with a blocking operation (a
+// select with a default case could drop it).
+func (k *c09) tokenSendBlocking() {
+	WalkCalls(k.add, nil, nil, k.follow, true, func(pf *PathFlow, in ssa.Instruction) {
+		sel, ok := in.(*ssa.Select)
 		if !ok {
 			return
 		}
-		noTimer, capped := false, false
-		for _, dc := range domConds(call.Block()) {
-			if cl, val, okc := boolCallCond(dc.If.Cond, dc.Branch); okc && !val && calleeObj(cl) != nil && calleeObj(cl).Name() == "Load" {
-				if id, _, isF := fieldOfValue(cl.Call.Args[0]); isF && id.Field == "hasTimer" {
-					noTimer = true
-				}
-			}
-			if cmp, okc := decodeCond(dc.If.Cond, dc.Branch); okc && (cmp.Op == token.GEQ || cmp.Op == token.GTR) {
-				if id, _, isF := fieldOfValue(cmp.X); isF && id == pend {
-					capped = true
-				}
-			}
-		}
-		if staticCallee(call) == fire && noTimer {
-			firstFires = true
-		}
-		if staticCallee(call) == fire && capped {
-			capFires = true
-		}
-		if obj := calleeObj(call); obj != nil && obj.Name() == "NewTimer" && noTimer && len(call.Call.Args) == 1 {
-			if id, _, isF := fieldOfValue(call.Call.Args[0]); isF && id.Field == "initialDelay" {
-				firstArms = true
+		for _, st := range sel.States {
+			if st.Dir == types.SendOnly && k.isFieldChan(pf, st.Chan, k.fInput) {
+				k.r.Check(sel.Blocking, "C09.L6-add", k.fname(in.Parent())+" token send", k.p.Pos(instrPos(in)), "the token is handed to the run loop with a blocking send", "the token is sent with a non-blocking select (default case): when the run loop is busy the token is dropped and the counted Add is not signalled until another event arrives")
 			}
 		}
 	})
-	r.Check(firstFires && firstArms, "C09.L7-handlers", "events/ratelimiting.coalescing.handleInputCh first", p.Pos(hic.Pos()), "with no window open the token fires immediately and opens a window of initialDelay", "the first Add after an idle period is no longer signalled immediately with a window of initialDelay opened")
-	r.Check(capFires, "C09.L7-handlers", "events/ratelimiting.coalescing.handleInputCh cap", p.Pos(hic.Pos()), "reaching MaxPendingEvents fires immediately", "reaching the pending-events cap no longer fires immediately")
-
-	c09TimerRearm(c, pkg, fns)
-	c09Backoff(c, pkg, fns)
-	c09ResetIdle(c, pkg)
-	c09RunContext(c, pkg)
 }
 
-// c09ResetIdle: every return of reset() has stored the idle values.
-func c09ResetIdle(c *Ctx, pkg string) {
-	r, p := c.R, c.P
-	fn := p.Func("events/ratelimiting", "coalescing.reset")
-	const (
-		fPending = 1 << iota
-		fDur
-		fFactor
-		fHasTimer
-		fTimer
-	)
-	ff := &FlagFlow{Fn: fn, Must: true, Transfer: func(in ssa.Instruction, st uint64) uint64 {
-		switch x := in.(type) {
-		case *ssa.Store:
-			fa, ok := x.Addr.(*ssa.FieldAddr)
-			if !ok || fieldIDOfAddr(fa).Type != pkg+".coalescing" {
-				return st
-			}
-			k, isK := x.Val.(*ssa.Const)
-			switch fieldIDOfAddr(fa).Field {
-			case "pendingEvents":
-				if isK && k.Value != nil && k.Int64() == 0 {
-					return st | fPending
-				}
-				return st &^ fPending
-			case "backoffFactor":
-				if isK && k.Value != nil && k.Int64() == 1 {
-					return st | fFactor
-				}
-				return st &^ fFactor
-			case "currentDur":
-				if id, _, ok := fieldOfValue(x.Val); ok && id.Field == "initialDelay" {
-					return st | fDur
-				}
-				return st &^ fDur
-			case "timer":
-				if isNilConst(x.Val) {
-					return st | fTimer
-				}
-				return st &^ fTimer
-			}
-		case *ssa.Call:
-			if obj := calleeObj(x); obj != nil && obj.Name() == "Store" && len(x.Call.Args) == 2 {
-				if id, _, ok := fieldOfValue(x.Call.Args[0]); ok && id.Field == "hasTimer" {
-					if k, ok := x.Call.Args[1].(*ssa.Const); ok && k.Value != nil && k.Value.String() == "false" {
-						return st | fHasTimer
-					}
-					return st &^ fHasTimer
+// signalOncePerGoroutine: a signalling goroutine sends at most one signal.
+func (k *c09) signalOncePerGoroutine() {
+	for _, fn := range k.fns {
+		if k.ctorOnly[fn] {
+			continue
+		}
+		allInstrs(fn, func(in ssa.Instruction) {
+			ev := false
+			for _, ch := range c09SendChans(in) {
+				if k.isEventChan(nil, ch) {
+					ev = true
 				}
 			}
-		}
-		return st
-	}}
-	ff.Run()
-	missing := ""
-	n := 0
-	ff.AtReturns(func(ret *ssa.Return, st uint64) {
-		n++
-		for bit, name := range map[uint64]string{fPending: "pendingEvents=0", fDur: "currentDur=initialDelay", fFactor: "backoffFactor=1", fHasTimer: "hasTimer=false", fTimer: "timer=nil"} {
-			if st&bit == 0 {
-				missing += " " + name
-			}
-		}
-	})
-	r.Check(missing == "" && n > 0, "C09.L10-reset-idle", "events/ratelimiting.coalescing.reset", p.Pos(fn.Pos()), "window state fully restored when the limiter goes idle",
-		"reset() does not restore the whole idle state (missing:"+missing+"): the next burst starts with stale window state (e.g. a stale back-off factor makes the second Add's window several times too long, so its signal arrives after the end of its quiet window)")
-}
-
-// c09RunContext: Run derives a cancellable context and passes THAT to the handlers.
-func c09RunContext(c *Ctx, pkg string) {
-	r, p := c.R, c.P
-	run := p.Func("events/ratelimiting", "coalescing.Run")
-	var derived ssa.Value
-	allInstrs(run, func(in ssa.Instruction) {
-		if call, ok := in.(*ssa.Call); ok && callIs(call, "context", "", "WithCancel") {
-			derived = callResult(call, 0)
-		}
-	})
-	if derived == nil {
-		r.Violation("C09.L11-run-context", "events/ratelimiting.coalescing.Run derived context", p.Pos(run.Pos()), "Run no longer derives a cancellable context: Close cannot release signalling goroutines blocked on a slow consumer")
-		return
-	}
-	// the derived ctx may be stored into the (shadowed) ctx cell; accept loads of a cell whose stores after entry are the derived value
-	isDerived := func(v ssa.Value) bool {
-		if v == derived {
-			return true
-		}
-		if u, ok := v.(*ssa.UnOp); ok && u.Op == token.MUL {
-			if cell, ok := u.X.(*ssa.Alloc); ok {
-				okAll, n := true, 0
-				for _, rr := range refs(cell) {
-					if st, ok := rr.(*ssa.Store); ok && st.Addr == ssa.Value(cell) {
-						n++
-						if st.Val != derived {
-							okAll = false
-						}
-					}
-				}
-				return okAll && n > 0
-			}
-		}
-		return false
-	}
-	n := 0
-	for _, name := range []string{"coalescing.handleInputCh", "coalescing.handleTimerFired"} {
-		h := p.Func("events/ratelimiting", name)
-		allInstrs(run, func(in ssa.Instruction) {
-			call, ok := in.(*ssa.Call)
-			if !ok || staticCallee(call) != h {
+			if !ev {
 				return
 			}
-			n++
-			okCtx := false
-			for _, a := range call.Call.Args {
-				if types.Identical(a.Type(), derived.Type()) && isDerived(a) {
-					okCtx = true
+			// can control come back to this send after the send was performed?
+			b := in.Block()
+			after := b.Succs
+			if sel, ok := in.(*ssa.Select); ok {
+				after = nil
+				for _, cs := range decodeSelect(sel).Cases {
+					if cs.Dir == types.SendOnly && k.isEventChan(nil, cs.ChanV) {
+						if cs.Body == nil {
+							after = b.Succs
+							break
+						}
+						after = append(after, cs.Body)
+					}
 				}
 			}
-			r.Check(okCtx, "C09.L11-run-context", "events/ratelimiting.coalescing.Run -> "+name, p.Pos(call.Pos()), "handler gets the context derived in Run (cancelled on Close)",
-				"the handler is given a context other than the one Run derives and cancels when closeCh fires: a signalling goroutine blocked on a slow consumer is never released, so Close (which waits for all helper goroutines) never returns")
+			cyc := false
+			for _, s := range after {
+				if reachableFrom(s, nil)[b] {
+					cyc = true
+				}
+			}
+			k.r.Check(!cyc, "C09.L3-signals-le-adds", k.fname(fn)+" sends once", k.p.Pos(instrPos(in)), "the signal send is not repeated in a loop", "the send on the event channel sits in a loop: one pending count can produce several signals")
 		})
 	}
-	if n == 0 {
-		r.Violation("C09.L11-run-context", "events/ratelimiting.coalescing.Run handlers", p.Pos(run.Pos()), "Run no longer calls the input/timer handlers")
-	}
-	// and closeCh case cancels the derived context (or the deferred cancel runs on return)
 }
 
-// c09TimerRearm: every Reset of coalescing.timer is dominated by a Stop of it
-// whose 'already fired' outcome (false) drains the timer channel; a stale tick
-// left in the channel closes the re-armed window at once.
-func c09TimerRearm(c *Ctx, pkg string, fns []*ssa.Function) {
-	r, p := c.R, c.P
-	isTimerCall := func(call *ssa.Call, name string) bool {
-		if !call.Call.IsInvoke() || call.Call.Method == nil || call.Call.Method.Name() != name {
-			return false
-		}
-		id, _, ok := fieldOfValue(call.Call.Value)
-		return ok && id.Type == pkg+".coalescing" && id.Field == "timer"
+// waitUnderLockTransitive complements CheckLW2: the goroutine entry points
+// (go bodies and the exported Run) that reach wg.Done through callees/defers
+// and reach an acquisition of a lock held across wg.Wait.
+func (k *c09) waitUnderLockTransitive() {
+	reaches := func(root *ssa.Function, pred func(ci ssa.CallInstruction) bool) bool {
+		hit := false
+		WalkCalls(root, nil, nil, k.follow, false, func(pf *PathFlow, in ssa.Instruction) {
+			if ci, ok := in.(ssa.CallInstruction); ok && pred(ci) {
+				hit = true
+			}
+		})
+		return hit
 	}
-	n := 0
-	for _, fn := range fns {
+	var entries []*ssa.Function
+	seen := map[*ssa.Function]bool{}
+	for _, g := range goroutinesOf(k.fns) {
+		if g.Body != nil && k.follow(g.Body) && !seen[g.Body] {
+			seen[g.Body] = true
+			entries = append(entries, g.Body)
+		}
+	}
+	entries = append(entries, k.run)
+	for _, fn := range k.fns {
+		if k.ctorOnly[fn] {
+			continue
+		}
 		allInstrs(fn, func(in ssa.Instruction) {
-			reset, ok := in.(*ssa.Call)
-			if !ok || !isTimerCall(reset, "Reset") {
+			call, ok := in.(*ssa.Call)
+			if !ok || !k.wgCall(call, "Wait") {
 				return
 			}
-			n++
-			okDrain := false
-			allInstrs(fn, func(j ssa.Instruction) {
-				stop, ok := j.(*ssa.Call)
-				if !ok || !isTimerCall(stop, "Stop") || !instrDominates(stop, reset) {
-					return
-				}
-				// the If testing Stop's result
-				for _, rr := range refs(stop) {
-					var ifi *ssa.If
-					neg := false
-					switch x := rr.(type) {
-					case *ssa.If:
-						ifi = x
-					case *ssa.UnOp:
-						if x.Op == token.NOT {
-							for _, r2 := range refs(x) {
-								if i2, ok := r2.(*ssa.If); ok {
-									ifi, neg = i2, true
-								}
-							}
-						}
-					}
-					if ifi == nil {
+			held := k.e.At(call)
+			var bad []string
+			for lock, mode := range held {
+				for _, g := range entries {
+					if !reaches(g, func(ci ssa.CallInstruction) bool { return k.wgCall(ci, "Done") }) {
 						continue
 					}
-					falseSucc := ifi.Block().Succs[1]
-					if neg {
-						falseSucc = ifi.Block().Succs[0]
-					}
-					// a receive from the timer's channel in the region entered when Stop returned false, before the Reset
-					for blk := range reachableFrom(falseSucc, map[*ssa.BasicBlock]bool{reset.Block(): true}) {
-						if !edgeDominates(ifi.Block(), falseSucc, blk) {
-							continue
-						}
-						for _, k := range blk.Instrs {
-							switch y := k.(type) {
-							case *ssa.UnOp:
-								if y.Op == token.ARROW && strings.HasPrefix(chanIdent(y.X), "timer:") {
-									okDrain = true
-								}
-							case *ssa.Select:
-								for _, st := range y.States {
-									if st.Dir == types.RecvOnly && strings.HasPrefix(chanIdent(st.Chan), "timer:") {
-										okDrain = true
-									}
-								}
-							}
-						}
+					if reaches(g, func(ci ssa.CallInstruction) bool {
+						id, kind, ok := k.e.lockOp(ci)
+						return ok && id == lock && (kind == opLock || (kind == opRLock && mode == ModeW))
+					}) {
+						bad = append(bad, fmt.Sprintf("%s (counted in the wait group) acquires %s before it can finish", k.fname(g), shortID(lock)))
 					}
 				}
-			})
-			r.Check(okDrain, "C09.L8-timer-rearm", FuncName(p, fn)+" timer.Reset", p.Pos(reset.Pos()), "Stop, drain-if-fired, then Reset",
-				"the window timer is re-armed without stopping it and draining its channel when it had already fired: a stale expiry left in the channel closes the freshly extended window at once, so a burst inside one window yields several signals and the back-off restarts")
+			}
+			sort.Strings(bad)
+			k.r.Check(len(bad) == 0, "C09.L2-wait-under-lock", k.fname(fn)+" wg.Wait vs counted goroutines", k.p.Pos(call.Pos()), "no counted goroutine (callees followed) needs a lock held across Wait (held: "+held.String()+")", "waits for the wait group while holding "+held.String()+"; a goroutine it waits for needs that lock to terminate: Wait never returns", bad...)
 		})
-	}
-	if n == 0 {
-		r.Violation("C09.L8-timer-rearm", "events/ratelimiting.coalescing timer.Reset", "-", "the window timer is never re-armed: later Adds do not extend the quiet window")
-	}
-}
-
-// c09Backoff: backoffFactor is multiplied only under a strict
-// currentDur < maxDelay test, and currentDur > maxDelay is clamped.
-func c09Backoff(c *Ctx, pkg string, fns []*ssa.Function) {
-	r, p := c.R, c.P
-	cur := FieldID{pkg + ".coalescing", "currentDur"}
-	max := FieldID{pkg + ".coalescing", "maxDelay"}
-	bf := FieldID{pkg + ".coalescing", "backoffFactor"}
-	n := 0
-	for _, fn := range fns {
-		allInstrs(fn, func(in ssa.Instruction) {
-			st, ok := in.(*ssa.Store)
-			if !ok {
-				return
-			}
-			fa, ok := st.Addr.(*ssa.FieldAddr)
-			if !ok || fieldIDOfAddr(fa) != bf {
-				return
-			}
-			bo, ok := st.Val.(*ssa.BinOp)
-			if !ok || (bo.Op != token.MUL && bo.Op != token.SHL && bo.Op != token.ADD) {
-				return // resets to a constant
-			}
-			n++
-			strict := false
-			for _, dc := range domConds(st.Block()) {
-				if cmp, ok := decodeCond(dc.If.Cond, dc.Branch); ok {
-					x, _, okx := fieldOfValue(cmp.X)
-					y, _, oky := fieldOfValue(cmp.Y)
-					if okx && oky && ((cmp.Op == token.LSS && x == cur && y == max) || (cmp.Op == token.GTR && x == max && y == cur)) {
-						strict = true
-					}
-				}
-			}
-			// clamp: a store currentDur = load maxDelay dominated by currentDur > maxDelay
-			clamp := false
-			allInstrs(fn, func(j ssa.Instruction) {
-				s2, ok := j.(*ssa.Store)
-				if !ok {
-					return
-				}
-				fa2, ok := s2.Addr.(*ssa.FieldAddr)
-				if !ok || fieldIDOfAddr(fa2) != cur {
-					return
-				}
-				if id, _, ok := fieldOfValue(s2.Val); ok && id == max {
-					for _, dc := range domConds(s2.Block()) {
-						if cmp, ok := decodeCond(dc.If.Cond, dc.Branch); ok {
-							x, _, okx := fieldOfValue(cmp.X)
-							y, _, oky := fieldOfValue(cmp.Y)
-							if okx && oky && (((cmp.Op == token.GTR || cmp.Op == token.GEQ) && x == cur && y == max) || ((cmp.Op == token.LSS || cmp.Op == token.LEQ) && x == max && y == cur)) {
-								clamp = true
-							}
-						}
-					}
-				}
-			})
-			r.Check(strict && clamp, "C09.L9-backoff-bounded", FuncName(p, fn)+" backoffFactor growth", p.Pos(st.Pos()), "factor grows only while currentDur < maxDelay; currentDur clamped to maxDelay",
-				"backoffFactor keeps growing once the window has reached maxDelay (the guard is not the strict currentDur < maxDelay) or currentDur is not clamped: after a few dozen Adds in one extended window initialDelay*factor overflows and the window collapses to zero/negative, so a long burst is signalled immediately and repeatedly")
-		})
-	}
-	if n == 0 {
-		r.Violation("C09.L9-backoff-bounded", "events/ratelimiting.coalescing backoffFactor growth", "-", "the quiet window no longer grows while events keep arriving")
 	}
 }
